@@ -102,7 +102,7 @@ func c04R1(c *Ctx) {
 	}
 	// uses of the connection value: one Write, reads only through bufio.NewReader
 	if g.conn == nil {
-		broken("jtp.Get opens no connection")
+		unfollowed("jtp.Get opens no connection")
 	}
 	nWrite := 0
 	for _, u := range connUses(P, g.conn, 0) {
@@ -285,7 +285,7 @@ func c04R3(c *Ctx) {
 	g := analyseGet(P)
 	fname := FuncName(g.fn)
 	if g.dial == nil {
-		broken("no dial in jtp.Get")
+		unfollowed("no dial in jtp.Get")
 	}
 	pos := P.InstrPos(g.dial)
 	f := calleeObj(&g.dial.Call)
